@@ -81,12 +81,17 @@ def random_spec(rng):
         fname = str(rng.choice(list(FUNCS)))
         fsrc = FUNCS[fname]
         x = float(rng.uniform(0.2, 2.0)) if rng.random() < 0.7 else [float(v) for v in rng.uniform(0.2, 2.0, size=3)]
+        if rng.random() < 0.5:      # either sign, |x| up to 6 (all five functions are entire or analytic on the real axis)
+            sc = float(rng.choice([-1.0, -3.0, 3.0]))
+            x = sc * x if isinstance(x, float) else [sc * v for v in x]
     else:
         if cls != 'Hessian':
             kw['order'] = int(rng.choice([2, 4]))
         fname = 'vec' if cls == 'Jacobian' and rng.random() < 0.5 else str(rng.choice(['sumsq', 'prod']))
         fsrc = VFUNCS[fname]
         x = [float(v) for v in rng.uniform(0.3, 1.5, size=2)]
+        if rng.random() < 0.5:
+            x = [float(v * rng.choice([-1.0, 1.0, -3.0])) for v in x]
     step = None
     if rng.random() < 0.3:
         step = {'_kind': 'min', 'base_step': float(rng.choice([1e-2, 1e-3, 0.05])), 'step_ratio': float(rng.choice([2.0, 1.6, 4.0])), 'num_steps': int(rng.integers(6, 12))}
